@@ -11,6 +11,15 @@
         ChangeSet is returned; otherwise the file is the concatenation of the updated lines and the diff is
         create_diff(original_lines, updated_lines);
       - SAST class: a targeted line the pattern leaves unchanged is reported unfixed (with the findings of that line).
+    Reading of "for SAST-driven use only lines that carry a finding" (review item B20).  The words bound the edits from
+    above: every edited line must carry a finding, i.e. lie inside (or at the start of) a location of a result handed to
+    the pipeline ([carries]); they do not say that every carrying line must be edited.  The code targets the START line
+    of each location only ([sast_targets]).  For a finding spanning several lines the later lines carry the finding
+    (get_findings_for_location is non-empty there) but are not edited even when the pattern matches them; since start
+    lines are carrying lines (C19_sast_text_reading) this is within the text, so it is not refuted and not a finding.
+    The theorems below are stated for the code's (narrower) reading and C19_sast_text_reading derives the text's
+    reading from it; the correspondence judges the SAST file content by the text's reading ([admissible] w.r.t.
+    [carries]) and leaves the exact choice of lines to the model comparison.
     What is proved: all of it, for the model of Model/RegexPipe.v ([sub], [mkdiff] universally quantified, so the
     theorems hold for whatever re.sub / create_diff compute).  The findings clause depends on how the source
     writes the index handed to get_findings_for_location; it is table-indexed (positive for [OneBased], refuted
@@ -92,6 +101,36 @@ Theorem C19_sast_only_finding_lines :
       (forall cs c, ao_ret out = Some cs -> In c (cs_changes cs) -> In (c_line c) (start_lines rs)).
 Proof. exact sast_only_finding_lines. Qed.
 Print Assumptions C19_sast_only_finding_lines.
+
+(** the text's reading of the SAST clause follows from the code's: start lines are lines that carry a finding, so the
+    written file is an admissible update (every line identical, or a carrying line replaced by its substitution) *)
+Theorem C19_sast_text_reading :
+  forall (sub : str -> str) rs lines,
+    (forall n, sast_targets rs n = true -> carries rs n = true) /\
+    admissible sub (carries rs) lines (spec_updated sub (sast_targets rs) lines) = true /\
+    (forall cand upd, admissible sub cand lines upd = true <->
+        (List.length upd = List.length lines /\
+         forall i l u, nth_error lines i = Some l -> nth_error upd i = Some u ->
+                       u = l \/ (cand (1 + N.of_nat i)%N = true /\ u = sub l))).
+Proof.
+  intros sub rs lines. split; [apply sast_targets_carry|]. split; [apply sast_text_reading|].
+  intros cand upd. apply admissible_from_meaning.
+Qed.
+Print Assumptions C19_sast_text_reading.
+
+(** a finding on lines 2-4 of a four-line file whose every line matches: lines 2, 3, 4 carry it, the code edits line 2
+    only (and reports nothing unfixed for 3 and 4); editing 2, 3 and 4 would be admissible too, editing line 1 not *)
+Example C19_sast_multiline_example :
+  let sub := fun l : str => match l with 97%N :: r => 65%N :: r | _ => l end in
+  let rs := [ {| r_locs := [(2, 4)%N]; r_finding := Some 7%N |} ] in
+  let lines := [[97; 10]; [97; 10]; [97; 10]; [97; 10]]%N in
+  map (carries rs) [1; 2; 3; 4; 5]%N = [false; true; true; true; false] /\
+  map (sast_targets rs) [1; 2; 3; 4; 5]%N = [false; true; false; false; false] /\
+  sast_apply_lines sub rs OneBased (Some rs) lines =
+    Some ([ {| c_line := 2; c_findings := [7] |} ], [[97; 10]; [65; 10]; [97; 10]; [97; 10]], [])%N /\
+  admissible sub (carries rs) lines [[97; 10]; [65; 10]; [65; 10]; [65; 10]]%N = true /\
+  admissible sub (carries rs) lines [[65; 10]; [65; 10]; [97; 10]; [97; 10]]%N = false.
+Proof. vm_compute. repeat split; reflexivity. Qed.
 
 (** _apply of the SAST class raises (TypeError) when handed results=None; whether that, or an undecodable file,
     escapes apply() depends on how apply() is written (table [regex_apply_isolation], extracted from the source):
